@@ -406,7 +406,14 @@ impl State {
                 let idx = match numbers::get_highest_index(&self.config.file_spec) {
                     None => 0,
                     Some(idx) => {
-                        if self.config.append {
+                        // continue with the newest file only if it is not compressed
+                        if self.config.append
+                            && self
+                                .config
+                                .file_spec
+                                .as_pathbuf(Some(&numbers::number_infix(idx)))
+                                .exists()
+                        {
                             idx
                         } else {
                             idx + 1
